@@ -157,6 +157,35 @@ func (p *Pkg) factCmp(name, fn, lhs string) {
 	facts.Nat[name+"_op"] = opCodes[op]
 }
 
+// factCmpOp is factCmp restricted to comparisons with the given operator
+// (for functions that compare the same expression more than once).
+func (p *Pkg) factCmpOp(name, fn, lhs, wantOp string) {
+	fd := p.funcDecl(fn)
+	if fd == nil {
+		miss(name)
+		return
+	}
+	found := false
+	ast.Inspect(fd, func(n ast.Node) bool {
+		if found {
+			return false
+		}
+		be, ok := n.(*ast.BinaryExpr)
+		if !ok || be.Op.String() != wantOp || types.ExprString(be.X) != lhs {
+			return true
+		}
+		if v, ok := p.constVal(be.Y); ok {
+			facts.Nat[name] = v
+			facts.Nat[name+"_op"] = opCodes[wantOp]
+			found = true
+		}
+		return true
+	})
+	if !found {
+		miss(name)
+	}
+}
+
 func (p *Pkg) factConst(name, ident string) {
 	if v, ok := p.scopeConst(ident); ok {
 		facts.Nat[name] = v
